@@ -476,7 +476,7 @@ func c11CheckRandFault(c c11RandFault, st *stats.Run) error {
 // through the age command with plugin recipients that declare labels, given
 // with -r or listed in a recipients file (-R)
 type c11PlugCLI struct {
-	Recs []string `json:"recs"` // each "x", "lbl" (plugin declaring postquantum), "nol" (plugin without labels), suffixed ":R" when listed in the recipients file
+	Recs []string `json:"recs"` // each "x", "lbl" (plugin declaring postquantum), "nol" (plugin without labels), suffixed ":R" when listed in the recipients file, ":I" when given as the plugin's identity with -e -i
 	Out  string   `json:"out"`  // file | stdout
 }
 
@@ -515,7 +515,7 @@ func c11CheckPlugCLI(c c11PlugCLI, st *stats.Run) error {
 	work := filepath.Join(dir, "work")
 	os.MkdirAll(work, 0o755)
 	os.WriteFile(filepath.Join(work, "in.txt"), []byte("plaintext"), 0o644)
-	var args, fileLines []string
+	var args, fileLines, idLines []string
 	sets := map[string]bool{}
 	for i, r := range c.Recs {
 		kind, via, _ := strings.Cut(r, ":")
@@ -535,7 +535,10 @@ func c11CheckPlugCLI(c c11PlugCLI, st *stats.Run) error {
 			str = plugin.EncodeRecipient("nol", []byte{byte(i)})
 			sets[""] = true
 		}
-		if via == "R" {
+		if via == "I" {
+			// the plugin's identity given with -e -i: the command asks the identity for its recipient
+			idLines = append(idLines, plugin.EncodeIdentity(kind, []byte{byte(i)}))
+		} else if via == "R" {
 			fileLines = append(fileLines, str)
 		} else {
 			args = append(args, "-r", str)
@@ -545,12 +548,16 @@ func c11CheckPlugCLI(c c11PlugCLI, st *stats.Run) error {
 		os.WriteFile(filepath.Join(work, "recips.txt"), []byte("# recipients\n"+strings.Join(fileLines, "\n")+"\n"), 0o644)
 		args = append(args, "-R", "recips.txt")
 	}
+	if len(idLines) > 0 {
+		os.WriteFile(filepath.Join(work, "ids.txt"), []byte("# identities\n"+strings.Join(idLines, "\n")+"\n"), 0o600)
+		args = append(args, "-e", "-i", "ids.txt")
+	}
 	if c.Out == "file" {
 		args = append(args, "-o", "out.age")
 	}
 	args = append(args, "in.txt")
 	want := len(sets) == 1
-	st.Case(len(c.Recs) >= 2, stats.HashJSON(c), "cli-plugin-labels", fmt.Sprintf("cli-plugin-labels:expect-success=%v", want), fmt.Sprintf("cli-plugin-labels:uses-R=%v", len(fileLines) > 0))
+	st.Case(len(c.Recs) >= 2, stats.HashJSON(c), "cli-plugin-labels", fmt.Sprintf("cli-plugin-labels:expect-success=%v", want), fmt.Sprintf("cli-plugin-labels:uses-R=%v", len(fileLines) > 0), fmt.Sprintf("cli-plugin-labels:identity-as-recipient=%v", len(idLines) > 0))
 	st.Sample("cli-plugin-labels", c)
 	code, stdout, stderr := runCLI(work, []string{"PATH=" + pdir, "HOME=" + work, hx.PlugEnv + "=" + dir}, nil, filepath.Join(bin, "age"), args...)
 	if code == -2 {
@@ -591,7 +598,7 @@ func TestC11(t *testing.T) {
 		s.St.Exhaust("the CSPRNG failing once on each of its first six reads (with 0 or 5 bytes delivered) while Encrypt wraps for passphrase, X25519, SSH recipient lists", int64(n))
 	}, func(c c11RandFault) error { return c11CheckRandFault(c, s.St) })
 	pbt.Each(s, "labels-cli-plugin", func(yield func(c11PlugCLI)) {
-		kinds := []string{"x", "lbl", "nol", "x:R", "lbl:R", "nol:R"}
+		kinds := []string{"x", "lbl", "nol", "x:R", "lbl:R", "nol:R", "lbl:I", "nol:I"}
 		n := 0
 		for _, a := range kinds {
 			if s.Mine(n) {
@@ -611,7 +618,7 @@ func TestC11(t *testing.T) {
 			}
 			n++
 		}
-		s.St.Exhaust("the age command with every list of one or two recipients over {X25519, plugin declaring a label, plugin declaring none} x {-r, recipients file}, and four lists of three", int64(n))
+		s.St.Exhaust("the age command with every list of one or two recipients over {X25519, plugin declaring a label, plugin declaring none} x {-r, recipients file, plugin identity with -e -i}, and four lists of three", int64(n))
 	}, func(c c11PlugCLI) error { return c11CheckPlugCLI(c, s.St) })
 	pbt.Each(s, "recipient-reuse", func(yield func(c11Reuse)) {
 		lists := [][]string{{"pq"}, {"pq", "foo"}, {"foo", "pq"}, {"pq", "foo", "pq"}, {"pq", "pq"}, {"foo", "pq", "foo", "pq"}, {"", "foo", "pq"}, {}}
